@@ -70,6 +70,22 @@ DESC = {
  "C20-D": ("C20", "(round 2) the arguments of a prefix-form goal are cut out of the string with character indices used as byte offsets", "a multi-byte character before the closing parenthesis of a goal or built-in call"),
  "C23-C": ("C23", "(round 2) the timer number is replaced by one global `armed` flag", "an old timer still running (dropped without cancel) that expires while a later solve()/solve_all() is in progress"),
  "C23-D": ("C23", "(round 2) solve()/solve_all() format answers themselves with an incomplete `has variables` test", "an answer holding a list whose items are complex terms or nested lists that contain rule variables"),
+ "C07-C": ("C07", "(round 2) an integer unifies with the equal-valued float, but not the reverse", "an integer as receiver facing a float of exactly equal value"),
+ "C07-D": ("C07", "(round 2) solver fast path: a ground head and a ground goal are compared with `==` after replace_variables() instead of unified", "a ground fact holding a literal list, called with a list pattern whose tail variable is already bound"),
+ "C08-C": ("C08", "(round 2) the left variable's bindings are followed in a loop, the alias walk still compares with the original variable", "two bound variables that are already aliased through a common end variable (a diamond): `$A = $E, $B = $E, $A = $B`"),
+ "C08-D": ("C08", "(round 2) a fact's variable ids are given back when the substitution set did not grow (same mechanism as C10-A / C01-C, found independently)", "a fact variable that occurs only inside a compound head argument, matched against an unbound variable, then another clause fetched: a cycle through the structure"),
+ "C09-C": ("C09", "(round 2) list unification skips `$_` nodes before it looks at the tail-variable flags", "a `$_` element sitting exactly where the other list has its tail variable, or an anonymous tail facing a remainder whose length is not 1"),
+ "C09-D": ("C09", "(round 2) make_linked_list() honours the vertical bar only before a LogicVar", "an anonymous tail built through the constructor (`slist!(true, a, anon!())`) unified with a remainder that does not have exactly one element"),
+ "C12-C": ("C12", "(round 2) integer divide divides once by the product of the divisors", "three or more integer arguments whose divisors' product overflows although no step of the documented fold does"),
+ "C12-D": ("C12", "(round 2) operands are collected in a thread-local scratch buffer that is cleared after the operation", "an evaluation that panics after at least one numeric argument (the panic caught), followed by another evaluation on the same thread: stale operands"),
+ "C13-C": ("C13", "(round 2) the function's value is bound by walking the other variable's alias chain with a misplaced bounds guard", "`$X = $Y` (with `$Y` the newer variable, nothing newer bound since), then `$X = add(1, 2)`: `$Y` stays unbound"),
+ "C13-D": ("C13", "(round 2) complex-term unification binds an unbound left argument directly, bypassing the function check", "a function term as an argument of a complex term on the right, an unbound variable in the same position on the left"),
+ "C14-C": ("C14", "(round 2) `exact` integer/float comparison that truncates the float toward zero", "an integer n against a float f with n-1 < f < n <= 0 (-2 and -2.5)"),
+ "C14-D": ("C14", "(round 2) `==` with a float rounding tolerance of a few ulp", "two different floats within 4 ulp (0.3 and 0.1 + 0.2)"),
+ "C16-C": ("C16", "(round 2) append() builds its result with the splicing constructor", "the last element of the concatenation is a nested list literal"),
+ "C16-D": ("C16", "(round 2) append() classifies its arguments with the typed accessors and skips what they do not cover", "a `$_` (or function term) given directly as an argument of append"),
+ "C24-C": ("C24", "(round 2) count_rules()/get_rule() remember the last lookup as a raw pointer, invalidated only for the same knowledge-base address", "a knowledge base dropped and another one filled elsewhere ending up at the same address, first lookup the same predicate: use-after-free"),
+ "C24-D": ("C24", "(round 2) the cut walks up the proof tree with cloned Rcs and writes every ancestor's head node unconditionally", "any cut executed inside a conjunction (the agent notes that this trigger is broad): write behind the live `&mut self`"),
  "C02-A": ("C02", "rule-body re-entry rewritten with Option::take(); the cut test after a failed re-entry is dropped", "a cut in a non-first alternative of a disjunction, the call re-entered after its first answer, the goals after the cut fail, and a later clause matches"),
  "C02-B": ("C02", "every node kind tests its own cut flag; the Or node does so only after delegating to its tail node", "a parenthesised disjunction left of a cut whose later alternative supplied the answer and has more, and the goals after the cut fail"),
  "C03-A": ("C03", "not(G) decides ground goals on fact-only predicates by structural equality instead of unification", "G ground at the call, predicate without rule bodies, and the only fact answering G is non-ground (`$_` or a repeated variable)"),
